@@ -950,6 +950,9 @@ fn exhaustive_chunk<T: Canon>(rec: &mut Recorder, case: usize, chunk: usize, chu
         }
         if let Some(acc) = check_bytes::<T>(rec, &name, &b, case, "exhaustive", &mut t) {
             rec.distinct(&(name.as_str(), b[n - 1], acc));
+            if rec.want_sample() && v % 97 == 5 {
+                rec.sample(json!({"type": name, "bytes": hex(&b), "accepted_by_deserialize": acc, "canonical_by_oracle": T::canonical(&b)}));
+            }
         }
     }
     rec.add("exhaustive_strings", per as u64);
@@ -1493,6 +1496,9 @@ mod reports {
         }
         rec.eval();
         rec.distinct(&(name.as_str(), "to_bytes", len));
+        if rec.want_sample() {
+            rec.sample(json!({"type": name, "vec_len": len, "expected_bytes": hex(&expect[..expect.len().min(24)])}));
+        }
         match catch(|| ProtocolResult::to_bytes(&v)) {
             Ok(got) if got == expect && got.len() == len * T::esize() => rec.count("to_bytes_layout_ok"),
             Ok(got) => viol(rec, "Vec<T>::to_bytes is not the concatenation of the element encodings",
@@ -2466,6 +2472,9 @@ mod transposes {
             rec.eval();
             rec.seen("transpose_impls", im.name);
             rec.distinct(&(im.name, pname.as_str()));
+            if rec.want_sample() && case % 41 == 3 {
+                rec.sample(json!({"transpose_impl": im.name, "pattern": pname, "layers": im.layers}));
+            }
             let expect = if im.layers == 1 { m.transposed() } else { layered_reference(&m, im.layers) };
             let pclass = pname.split(' ').next().unwrap_or("").split('#').next().unwrap_or("").to_string();
             let out = match catch(|| (im.f)(&m)) {
